@@ -187,15 +187,21 @@ Proof.
   destruct (aes_decompress Db st []) as [st' tail]. unfold d_ret. cbn [fst snd]. now rewrite Hc.
 Qed.
 
-(* the ValueError behaviour (recorded in Aes.v as aes_decompress_chk_err), over the generated code: a short chunk on a
-   non-empty residue makes the cipher raise *)
-Theorem gen_decompress_short_raises (buf : bytes) (c : cst) (d : bytes) (ml : Z) :
-  0 < blen buf -> 0 < blen d -> blen buf + blen d < 16 ->
-  AesBuf.AESDecompressor_decompress cst (dec_chk Db) buf c d ml = Err EOther.
+(* the repaired behaviour (Aes.aes_decompress_short_buffered), over the generated code: a short chunk on a
+   non-empty residue is kept for the next call -- the cipher is not called and nothing is returned *)
+Theorem gen_decompress_short_buffers (buf : bytes) (c : cst) (d : bytes) (ml : Z) :
+  0 < blen d -> blen buf + blen d < 16 ->
+  AesBuf.AESDecompressor_decompress cst (dec_chk Db) buf c d ml = Ok ([], (buf ++ d, c)).
 Proof.
-  intros H1 H2 H3. pose proof (gen_decompress_chk Db {| dbuf := buf; dcst := c |} d ml) as H. cbn [dbuf dcst] in H.
-  rewrite H, aes_decompress_chk_err by assumption. reflexivity.
+  intros H2 H3. pose proof (gen_decompress_chk Db {| dbuf := buf; dcst := c |} d ml) as H. cbn [dbuf dcst] in H.
+  rewrite H. destruct (aes_decompress_short_buffered Db {| dbuf := buf; dcst := c |} d H2 H3) as [-> _]. reflexivity.
 Qed.
+
+(* hence every chunking into non-empty chunks decrypts correctly, whatever the chunk sizes *)
+Theorem gen_aes_decompress_chunking_nonempty (iv : bytes) (chunks : list bytes)
+  (Hall : Forall (fun d => 0 < blen d) chunks) :
+  gen_decompress_stream cst (dec_chk Db) iv chunks = Ok (fst (cbc_dec Db iv (pad16 (concat chunks)))).
+Proof. apply gen_aes_decompress_chunking. apply dec_chunks_ok_nonempty. exact Hall. Qed.
 End Runs.
 
 (* ---------------------------------------------------------------- non-vacuity: a toy block cipher (x -> x + 1 mod 256 per byte) *)
